@@ -519,7 +519,9 @@ def run(res, tier, lean, proof_breaks=(), build_log=""):
             if not any(b[3] == name for b in bad):
                 continue
             runs = list(explore.dfs(make_deb_run(scripts), 3, 400, {})) + \
-                list(explore.random_runs(make_deb_run(scripts, line_preempt=True), r, 120, 0.15))
+                list(explore.random_runs(make_deb_run(scripts, line_preempt=True), r, 120, 0.15)) + \
+                list(explore.random_runs(make_deb_run(scripts, line_preempt=True), r, 200, 0.02)) + \
+                list(explore.park_runs(make_deb_run(scripts, line_preempt=True), 200))
             for sched, result in runs:
                 searched += 1
                 v = judge_deb(scripts, result)
